@@ -24,8 +24,22 @@ variable {E α : Type}
 
 /-- the types whose `Transform` is one loop over a `[]Point` (or no loop) -/
 def Mem.flat : MGeom α → Bool
-  | .point _ | .multiPoint _ | .lineString _ | .polygon _ | .bounds _ | .multiLineString _ => true
+  | .point _ | .multiPoint _ | .lineString _ | .polygon _ | .bounds _ | .multiLineString _ | .multiPolygon _ => true
   | _ => false
+
+theorem decodeGeom_multiPolygon (m : Mem α) (k : Nat) (s : Slice) :
+    decodeGeom m (k+1) (.multiPolygon s) =
+      match readArr m.polys s with
+      | none => none
+      | some ps => (ps.mapM (decodePoly m.pts m.paths)).map Geom.multiPolygon := by
+  have hfun : (fun p => (do let hs ← readArr m.paths p; hs.mapM (readArr m.pts) : Option _)) = decodePoly m.pts m.paths := by
+    funext p; unfold decodePoly; cases readArr m.paths p <;> rfl
+  simp only [decodeGeom]
+  rw [hfun]
+  cases readArr m.polys s with
+  | none => rfl
+  | some ps =>
+    cases h : ps.mapM (decodePoly m.pts m.paths) <;> simp [h, bind, Option.bind, pure]
 
 /-- the ring `(*Bounds).Transform` builds -/
 abbrev boundsRing4 (mn mx : Pt α) : List (Pt α) := [mn, ⟨mx.x, mn.y⟩, mx, ⟨mn.x, mx.y⟩]
@@ -162,6 +176,32 @@ theorem C10_mem_refines_partial (zero : Pt α) (fuel : Nat) (t : TF E α) (g : M
       obtain ⟨m', res⟩ := r
       simp at this; subst this
       simp
+  | multiPolygon s =>
+    rw [decodeGeom_multiPolygon] at hd
+    cases h1 : readArr m.polys s with
+    | none => simp [h1] at hd
+    | some ps =>
+      simp only [h1] at hd
+      cases h2 : ps.mapM (decodePoly m.pts m.paths) with
+      | none => simp [h2] at hd
+      | some pss =>
+        simp [h2] at hd; subst hd
+        obtain ⟨k1, k2⟩ := multiPolyM_refines zero t s m ps pss h1 h2
+        simp only [transform, transformS, transformTop, transformM]
+        cases hr : multiPolyLoop t pss with
+        | ok qsss =>
+          obtain ⟨hdr, ps', e1, e2, e3⟩ := k1 qsss hr
+          generalize multiPolyM zero t s m = r at e1 e2 e3
+          obtain ⟨m', res⟩ := r
+          simp at e1; subst e1
+          simp at e2 e3
+          simp [decodeGeom_multiPolygon, e2, e3]
+        | error e =>
+          have := k2 e hr
+          generalize multiPolyM zero t s m = r at this
+          obtain ⟨m', res⟩ := r
+          simp at this; subst this
+          simp
   | _ => simp [Mem.flat] at hf
 
 /-- **C10_mem_refines_nil**: with a nil transformer the memory model returns the receiver in the unchanged
